@@ -3,6 +3,7 @@ package main
 import (
 	"fmt"
 	"go/ast"
+	"go/constant"
 	"go/token"
 	"go/types"
 	"sort"
@@ -480,8 +481,20 @@ func (c *Ctx) prefixFilterD(fd *ast.FuncDecl, cond ast.Expr, depth int) (prefix 
 		if ok && depth < 2 {
 			// a package predicate over the key whose body is one return statement
 			if g, isF := c.callee(call).(*types.Func); isF && g.Pkg() == c.Types {
-				if gfd := c.decl(g); gfd != nil && gfd.Body != nil && len(gfd.Body.List) == 1 {
-					if rs, isR := gfd.Body.List[0].(*ast.ReturnStmt); isR && len(rs.Results) == 1 {
+				if gfd := c.decl(g); gfd != nil && gfd.Body != nil && len(gfd.Body.List) >= 1 {
+					// (constant declarations may precede the return)
+					onlyConsts := true
+					for _, st := range gfd.Body.List[:len(gfd.Body.List)-1] {
+						ds, isDecl := st.(*ast.DeclStmt)
+						if !isDecl {
+							onlyConsts = false
+							break
+						}
+						if gd, isGen := ds.Decl.(*ast.GenDecl); !isGen || gd.Tok != token.CONST {
+							onlyConsts = false
+						}
+					}
+					if rs, isR := gfd.Body.List[len(gfd.Body.List)-1].(*ast.ReturnStmt); isR && len(rs.Results) == 1 && onlyConsts {
 						if p, l, f := c.prefixFilterD(gfd, rs.Results[0], depth+1); f {
 							prefix, lowered, found = p, l, true
 						}
@@ -499,6 +512,11 @@ func (c *Ctx) prefixFilterD(fd *ast.FuncDecl, cond ast.Expr, depth int) (prefix 
 				}
 				if tv, has := c.Info.Types[sl.High]; has && tv.Value != nil && tv.Value.String() == fmt.Sprint(len(k)) {
 					prefix, lowered, found = strings.ToLower(k), true, true
+					// the length test that makes the slice safe must not exclude the key that is exactly the
+					// prefix: len(name) > len(K) is not "name starts with K"
+					if c.lenGuardExcludesExact(cond, sl.X, len(k)) {
+						found = false
+					}
 				}
 			}
 			return true
@@ -525,6 +543,48 @@ func (c *Ctx) prefixFilterD(fd *ast.FuncDecl, cond ast.Expr, depth int) (prefix 
 		return true
 	})
 	return
+}
+
+// lenGuardExcludesExact: does cond contain a test len(x) > n (or len(x) >= n+1, n < len(x), ...) on the sliced
+// operand, which is false for a value of exactly n bytes?
+func (c *Ctx) lenGuardExcludesExact(cond ast.Expr, x ast.Expr, n int) bool {
+	excl := false
+	isLenOf := func(e ast.Expr) bool {
+		call, ok := unparen(e).(*ast.CallExpr)
+		return ok && c.isBuiltin(call, "len") && len(call.Args) == 1 && exprString(call.Args[0]) == exprString(x)
+	}
+	intOf := func(e ast.Expr) (int, bool) {
+		if tv, ok := c.Info.Types[e]; ok && tv.Value != nil && tv.Value.Kind() == constant.Int {
+			if v, exact := constant.Int64Val(tv.Value); exact {
+				return int(v), true
+			}
+		}
+		return 0, false
+	}
+	ast.Inspect(cond, func(nd ast.Node) bool {
+		be, ok := nd.(*ast.BinaryExpr)
+		if !ok {
+			return true
+		}
+		l, r, op := be.X, be.Y, be.Op
+		if isLenOf(r) {
+			// mirror: k < len(x)  ==  len(x) > k
+			l, r = r, l
+			op = map[token.Token]token.Token{token.LSS: token.GTR, token.LEQ: token.GEQ, token.GTR: token.LSS, token.GEQ: token.LEQ}[op]
+		}
+		if !isLenOf(l) {
+			return true
+		}
+		k, isInt := intOf(r)
+		if !isInt {
+			return true
+		}
+		if op == token.GTR && k >= n || op == token.GEQ && k > n {
+			excl = true
+		}
+		return true
+	})
+	return excl
 }
 
 func ruleFragmentDisjoint(c *Ctx) {
@@ -609,6 +669,10 @@ func ruleFragmentDisjoint(c *Ctx) {
 			continue
 		}
 		c.saw(c.funcName(fd))
+		if ok, why, decided := c.keyFilterBySim(fd, fl.want, fl.lower); decided {
+			c.ob(rule, fl.typ+".MarshalJSON:key-filter", fd.Pos(), ok, why)
+			continue
+		}
 		recv := c.recvObj(fd)
 		stores, guarded := 0, 0
 		why := ""
@@ -814,7 +878,28 @@ func ruleFragmentDisjoint(c *Ctx) {
 		}
 	}
 	c.ob(rule, "Schema.ExtraProps:writers", token.NoPos, len(writers) > 0 && len(badWriters) == 0, fmt.Sprintf("ExtraProps is written by %v; only Schema.UnmarshalJSON (and helpers of its own) filter its keys", badWriters))
+	simDecided := false
 	if u != nil {
+		if ef, ok := c.extraFillBySim(u); ok {
+			// decided on the effect normal form of the decoder: at every store into the map that ends up in ExtraProps
+			// the key is known to be none of the hand-coded members, none of the tagged names and not an x- key
+			// (deleted from the generic map before the walk, or excluded by a membership test in a set that holds it)
+			simDecided = true
+			c.saw(c.funcName(u))
+			for _, k := range []struct {
+				name string
+				ok   bool
+			}{{"$ref", ef.refOK}, {"$schema", ef.schemaOK}} {
+				c.ob(rule, "Schema.UnmarshalJSON:deletes("+k.name+")", u.Pos(), k.ok,
+					"the hand-coded member is not removed from the generic map before the rest is parked in ExtraProps: it is emitted twice (its own fragment and the ExtraProps fragment)")
+			}
+			c.ob(rule, "Schema.UnmarshalJSON:deletes-tagged-names", u.Pos(), ef.taggedOK,
+				"every tagged member name of Schema must be deleted from the generic map before the rest is parked in ExtraProps, or a keyword is emitted twice")
+			c.ob(rule, "Schema.UnmarshalJSON:x-routing", ef.firstPos, ef.xroutedOK,
+				"x- keys must be routed to Extensions and skipped, or they are emitted twice (extensions fragment and ExtraProps fragment)")
+		}
+	}
+	if u != nil && !simDecided {
 		c.saw(c.funcName(u))
 		// the loop over the generic map that (directly or through an owned helper) fills ExtraProps
 		var genMap types.Object
@@ -1065,6 +1150,11 @@ func ruleTotalOrder(c *Ctx) {
 		c.saw(fn)
 		recv := c.recvObj(fd)
 		uniqueField := c.uniqueKeyFields(c.recvTypeOf(fd))
+		// decided on the effect normal form whenever the comparator is in the supported fragment
+		if decided, good, why := c.totalOrderBySim(fd, uniqueField); decided {
+			c.ob(rule, fn+":ties-broken", fd.Pos(), good, why)
+			continue
+		}
 		ocLess := c.newOriginCtx(fd)
 		isUniqueKeyPair := func(x, y ast.Expr) bool {
 			px, okx := c.apath(x)
